@@ -5,11 +5,16 @@
 //   c17 makevalid <seed> <n> <outbase>
 //   c17 replay <file>    lines "M | <input tokens> | ... | method=.. keep=.." (re-run) or "W <method> <keep> <wkt>"
 #include "validgen.h"
+#include <cstdarg>
+#include <csignal>
+#include <unistd.h>
+#include <sys/wait.h>
+#include <poll.h>
 #include <fstream>
 #include <iostream>
 using namespace vh;
 static void notice(const char*, ...) {}
-static void errorh(const char*, ...) {}
+static void errorh(const char* fmt, ...) { if (std::getenv("C17_VERBOSE")) { va_list ap; va_start(ap, fmt); std::vfprintf(stderr, fmt, ap); std::fputc('\n', stderr); va_end(ap); } }
 
 static GEOSGeometry* mv(GEOSContextHandle_t h, const GEOSGeometry* g, int method, int keep) {
     GEOSMakeValidParams* p = GEOSMakeValidParams_create_r(h);
@@ -19,7 +24,7 @@ static GEOSGeometry* mv(GEOSContextHandle_t h, const GEOSGeometry* g, int method
     GEOSMakeValidParams_destroy_r(h, p); return out;
 }
 
-static std::string runOne(GEOSContextHandle_t h, const Geometry* g, const std::string& inToks, int method, int keep, Out* out) {
+static std::string runDirect(GEOSContextHandle_t h, const Geometry* g, const std::string& inToks, int method, int keep, Out* out) {
     const GEOSGeometry* cg = (const GEOSGeometry*) g;
     GEOSGeometry* o = mv(h, cg, method, keep);
     std::string outToks = "NULL", ov = "-", idem = "-";
@@ -37,12 +42,37 @@ static std::string runOne(GEOSContextHandle_t h, const Geometry* g, const std::s
     return "M | " + inToks + " | " + outToks + " | method=" + (method == 0 ? "L" : "S") + " keep=" + std::to_string(keep) + " ov=" + ov + " idem=" + idem;
 }
 
+// watchdog for calls that never return: the first alarm asks GEOS to interrupt, the second gives up on the process
+static volatile sig_atomic_t g_alarms = 0;
+static void onAlarm(int) { g_alarms++; if (g_alarms == 1) { GEOS_interruptRequest(); alarm(10); } else { const char m[] = "c17: MakeValid does not return\n"; (void) !write(2, m, sizeof m - 1); _exit(7); } }
+
+// Inputs with non-finite ordinates are run in a forked child with a time limit (a known family makes the noder spin
+// forever while allocating); everything else runs in-process under the watchdog.
+static std::string runOne(GEOSContextHandle_t h, const Geometry* g, const std::string& inToks, int method, int keep, Out* out, bool nonFinite) {
+    if (!nonFinite) { g_alarms = 0; alarm(60); std::string r = runDirect(h, g, inToks, method, keep, out); alarm(0); if (g_alarms) GEOS_interruptCancel(); return r; }
+    int fd[2]; if (pipe(fd) != 0) return runDirect(h, g, inToks, method, keep, out);
+    std::fflush(nullptr);
+    pid_t pid = fork();
+    if (pid == 0) { close(fd[0]); std::string r = runDirect(h, g, inToks, method, keep, nullptr); size_t off = 0; while (off < r.size()) { ssize_t k = write(fd[1], r.data() + off, r.size() - off); if (k <= 0) break; off += (size_t) k; } _exit(0); }
+    close(fd[1]); std::string res; bool timedOut = false; int waited = 0;
+    while (true) { struct pollfd pf{fd[0], POLLIN, 0}; int pr = poll(&pf, 1, 250); waited += 250;
+        if (pr > 0) { char buf[65536]; ssize_t k = read(fd[0], buf, sizeof buf); if (k <= 0) break; res.append(buf, (size_t) k); }
+        else if (waited >= 5000) { timedOut = true; break; } }
+    close(fd[0]); if (timedOut) kill(pid, SIGKILL); int st = 0; waitpid(pid, &st, 0);
+    std::string cfg = std::string(" | method=") + (method == 0 ? "L" : "S") + " keep=" + std::to_string(keep);
+    if (timedOut) { if (out) out->count("timeout"); return "M | " + inToks + " | TIMEOUT" + cfg + " ov=- idem=-"; }
+    if (res.empty() || !WIFEXITED(st) || WEXITSTATUS(st) != 0) { if (out) out->count("child_crash"); return "M | " + inToks + " | CRASH" + cfg + " ov=- idem=-"; }
+    if (out) { out->count(std::string("method_") + (method == 0 ? "L" : "S") + std::to_string(keep)); out->count("forked_nonfinite"); }
+    return res;
+}
+
 static std::string field(const std::string& s, const std::string& k) { size_t p = s.find(k + "="); if (p == std::string::npos) return ""; size_t q = s.find(' ', p); return s.substr(p + k.size() + 1, q == std::string::npos ? std::string::npos : q - p - k.size() - 1); }
 
 int main(int argc, char** argv) {
     if (argc < 3) return 2;
     std::string stream = argv[1];
     GEOSContextHandle_t h = GEOS_init_r(); GEOSContext_setNoticeHandler_r(h, notice); GEOSContext_setErrorHandler_r(h, errorh);
+    std::signal(SIGALRM, onAlarm);
     auto gf = GeometryFactory::getDefaultInstance();
     if (stream == "replay") {
         std::ifstream f(argv[2]); std::string line;
@@ -55,7 +85,7 @@ int main(int argc, char** argv) {
                     if (parts.size() < 4) { std::cout << "invalid\n"; continue; }
                     toks = parts[1]; method = field(parts[3], "method") == "L" ? 0 : 1; keep = field(parts[3], "keep") == "1" ? 1 : 0; }
                 HGeo hg = parseHLine(toks); auto g = buildH(hg, gf);
-                std::cout << runOne(h, g.get(), dumpGeom(g.get()), method, keep, nullptr) << "\n";
+                std::cout << runOne(h, g.get(), dumpGeom(g.get()), method, keep, nullptr, hasNonFinite(hg)) << "\n";
             } catch (std::exception& e) { std::cout << "invalid " << e.what() << "\n"; }
         }
         GEOS_finish_r(h); return 0; }
@@ -73,11 +103,11 @@ int main(int argc, char** argv) {
         if (loose) { out.count("skipped_ill_formed"); continue; }        // unclosed / 1-2 point rings are not well-formed inputs
         out.count("family_" + family); out.count(std::string("type_") + g->getGeometryType());
         out.count(std::string("input_valid_") + (GEOSisValid_r(h, (GEOSGeometry*) g.get()) == 1 ? "1" : "0"));
-        std::string toks = dumpGeom(g.get());
+        std::string toks = dumpGeom(g.get()); bool nf = hasNonFinite(hg);
         static const int cfg[3][2] = {{0, 0}, {1, 0}, {1, 1}};
         for (auto& c : cfg) {
             { FILE* cf = std::fopen((std::string(argv[4]) + ".current").c_str(), "w"); if (cf) { std::fprintf(cf, "M | %s | ? | method=%s keep=%d\n", toks.c_str(), c[0] == 0 ? "L" : "S", c[1]); std::fclose(cf); } }
-            out.emit(runOne(h, g.get(), toks, c[0], c[1], &out), "ok"); emitted++; }
+            out.emit(runOne(h, g.get(), toks, c[0], c[1], &out, nf), "ok"); emitted++; }
     }
     GEOS_finish_r(h); return 0;
 }
